@@ -91,6 +91,7 @@ func admittedTypes(fn *ssa.Function, pi int) []string {
 }
 
 func c19(c *Ctx) {
+	lockPairing(c, "R-C19.9")
 	p, r := c.P, c.R
 	r.Rule("R-C19.1", "each back end's type-to-sub-path switch covers exactly the message types types.ValidateMessage admits, with distinct non-empty constants none of which is a path-prefix of another; the two back ends' tables are equal; List admits the same set in both back ends, a subset of the table")
 	r.Rule("R-C19.2", "Store, Load and Remove of each back end reach their value operation only through successful ValidateMessage and successful sub-path lookup")
